@@ -43,7 +43,7 @@ def referenced(prog, name):
     return name in ktree.strings_of([e for e in ktree.walk(prog) if not (e["k"] == "config" and e["name"] == name)], set())
 
 
-ALT = {"int": ["3", "7", "10"], "hex": ["0x3", "0x7", "0x1F"], "string": ["newdef", "zz"], "float": ["3.25", "7.5"]}
+ALT = {"int": ["3", "7", "10"], "hex": ["0x3", "0x7", "0x1F"], "string": ["newdef", "y", "zz"], "float": ["3.25", "7.5"]}
 
 
 def mutations(item, rng):
